@@ -4,7 +4,7 @@ import json, os, shutil, sys, glob
 src = sys.argv[1] if len(sys.argv) > 1 else "/tmp/seeded-out"
 dst = "/verif/seeded"
 os.makedirs(dst, exist_ok=True)
-for d in sorted(glob.glob(os.path.join(src, "C??-m?"))):
+for d in sorted(glob.glob(os.path.join(src, "C??-m*"))):
     name = os.path.basename(d)
     cj = os.path.join(d, "confirm.json")
     if not os.path.exists(cj) or not os.path.exists(os.path.join(d, "patch.diff")):
@@ -23,12 +23,15 @@ for d in sorted(glob.glob(os.path.join(src, "C??-m?"))):
     if name == "C02-m4" and status != "confirmed":
         special = ("the demonstration is a stand-alone Miri test (the defect is a data race on the cell's slot; functional behaviour on x86-64 is unchanged); "
                    "confirmed with the Miri and TSan legs of the C02 check against the patch")
+    if name == "C03-m9" and status != "confirmed":
+        special = ("the demonstration is a Miri test (a Relaxed load of the `hashed` flag is only observable under a weak memory model; x86-64 hardware gives every load acquire semantics); "
+                   "confirmed with the Miri race leg of the C03 check against the patch (see result.json)")
     if status != "confirmed" and not special:
         print("skipping", name, status); continue
     out = os.path.join(dst, name)
     os.makedirs(out, exist_ok=True)
     shutil.copy(os.path.join(d, "patch.diff"), os.path.join(out, "patch.diff"))
-    for f in ("demo.rs", "demo.md", "demo.Cargo.toml", "patch.orig.diff", "demo_threads.rs", "demo_delay.diff", "confirm.json"):
+    for f in ("demo.rs", "demo.md", "demo.Cargo.toml", "patch.orig.diff", "demo_threads.rs", "demo_delay.diff", "confirm.json", "widen-with-patch.diff", "widen-without-patch.diff"):
         if os.path.exists(os.path.join(d, f)):
             shutil.copy(os.path.join(d, f), os.path.join(out, f))
     meta = {
